@@ -67,9 +67,12 @@ def nstate_diff(a, b, rtol=0.0, atol=0.0, skip=()):
     return None
 
 
+_KEY = re.compile(r"""\[(?:'(?:[^'\\]|\\.)*'|"(?:[^"\\]|\\.)*"|[^\]'"])*\]""")
+
+
 def strip_keys(path):
     """Path with the contents of [..] removed (signatures must not carry case data)."""
-    return re.sub(r"\[[^\]]*\]", "[]", str(path))
+    return _KEY.sub("[]", str(path))
 
 
 def poke(buf):
@@ -98,10 +101,11 @@ def frozen_buffers(obj, skip=()):
 # except the h_matrix"): the point sets it was fitted to are shared.  TransformChain keeps a new list of
 # the same member transforms.  Anything below such a path is therefore allowed to be shared.
 _ALIGN_SHARED = re.compile(r"(^|\])\._(source|target)(\.|$|<)")
-_CHAIN_MEMBER = re.compile(r"^\.transforms\[\d+\]")
+_CHAIN_MEMBER = re.compile(r"^\.transforms\[\]")
 
 
 def sharing_allowed(path_a, path_b):
+    path_a, path_b = strip_keys(path_a), strip_keys(path_b)
     for p in (path_a, path_b):
         if _CHAIN_MEMBER.match(p):
             return True
@@ -109,4 +113,5 @@ def sharing_allowed(path_a, path_b):
 
 
 def is_shared_by_design(path):
+    path = strip_keys(path)
     return bool(_CHAIN_MEMBER.match(path)) or bool(_ALIGN_SHARED.search(path))
